@@ -15,6 +15,28 @@ def arena_reloc_reject_v452 (buffer_id num_buffers offset used bdata : BitVec 64
 def arena_reloc_reject_v2 (buffer_id num_buffers offset used bdata : BitVec 64) : Bool :=
   (decide (num_buffers ≤ buffer_id) || (((bdata == (0#64)) || decide (used < (8#64))) || decide ((used - (8#64)) < offset)))
 
+theorem toNat_w32 (x : BitVec 64) : (w32 x).toNat = x.toNat % 2 ^ 32 := by
+  simp only [w32, BitVec.toNat_setWidth]
+  omega
+
+/-- frozen copy of the pe.c Rich-header offset test as of yara 4.5.2 + fixes up to 5a7d1fe -/
+def pe_rich_nthdr_reject_v452 (data_size nthdr_offset : BitVec 64) : Bool :=
+  (decide ((data_size + (4#64)) < nthdr_offset) || decide (nthdr_offset < (4#64)))
+
+/-- F60 witness: a 100-byte file and e_lfanew = 104 pass the test, the 4-byte read at [100,104) is outside -/
+theorem pe_rich_nthdr_v452_unsound_witness :
+    ∃ sz off : BitVec 64, pe_rich_nthdr_reject_v452 sz off = false ∧ ¬ (off.toNat - 4) + 4 ≤ sz.toNat :=
+  ⟨100#64, 104#64, by decide, by decide⟩
+
+/-- frozen copy of the pe.c security-directory test (32-bit sum) -/
+def pe_security_dir_reject_v452 (data_size sec_va sec_size : BitVec 64) : Bool :=
+  ((((sec_va == (0#64)) || decide (data_size < sec_va)) || decide (data_size < sec_size)) || decide (data_size < (w32 (sec_va + sec_size))))
+
+/-- F61 witness: 3 GiB file, VirtualAddress = Size = 0xA0000000: the 32-bit sum is 0x40000000 -/
+theorem pe_security_dir_v452_unsound_witness :
+    ∃ sz va n : BitVec 64, va.toNat < 2 ^ 32 ∧ n.toNat < 2 ^ 32 ∧ pe_security_dir_reject_v452 sz va n = false ∧ ¬ va.toNat + n.toNat ≤ sz.toNat :=
+  ⟨0xC0000000#64, 0xA0000000#64, 0xA0000000#64, by decide, by decide, by decide, by decide⟩
+
 theorem finishCore_bounded (dataSize rva r x y z : Nat) (h : finishCore dataSize rva x y z = some r) :
     r < dataSize := by
   simp only [finishCore] at h
